@@ -5,7 +5,7 @@ from ..mir import switch_conds, cmp_true_false_edges, storage_call
 from ..dataflow import (two_var_table, call_of, cond_at, message_creations, forward_flow, field_sources,
                         variant_excluded_edges, const_of)
 from ..guards import HelperGuard, site_guarded, resolve, ok_return_blocks
-from .common import storage_calls, arg_origins, ok_value_blocks, must_pass_through
+from .common import storage_calls, arg_origins, ok_value_blocks, must_pass_through, nonzero_edges
 from .C12 import check_messages_attached
 
 EXPLANATION = """
@@ -108,9 +108,9 @@ def check_vfs(ctx, model):
     # zero rejected
     zero_ok = False
     for b, c, _ in switch_conds(v):
-        if c.kind == "call" and c.callee.endswith("Uint128::is_zero") and is_amt(v.origins_of_operand(c.term["args"][0], at=v.at_term(c.block))):
-            te, fe = cmp_true_false_edges(v, b, c)
-            bad = fe if c.neg else te
+        nz = nonzero_edges(v, b, c)
+        if nz is not None and is_amt(v.origins_of_operand(nz[0], at=nz[1])):
+            bad = nz[3]
             r = set()
             for (_, tgt) in bad:
                 r |= v.reachable(tgt)
